@@ -215,6 +215,7 @@ def run(run, model):
     run.do(base_rule, model)
     run.do(invariant_raise_site, model)
     run.do(select.selector_rules, model, "C09.factory-args", which=("error",))
+    run.do(select.introspect_rules, model, "C09.factory-args-source")
     from . import gates
     # the values produced by the dispatch reach the caller unchanged: gates of PRE / POST raise the helper's value
     for role, ck in gates.checkers(model).items():
